@@ -26,7 +26,8 @@ type Hist struct {
 	model        *ref.Model
 	ops          []Op
 	everNonDec   bool
-	everPreEpoch bool // a message with a time before 1970-01-01 was published
+	spell        string // how the directory is spelled towards klevdb (see path)
+	everPreEpoch bool   // a message with a time before 1970-01-01 was published
 	lastPubT     int64
 	havePub      bool
 	gen          *GenState
@@ -403,15 +404,15 @@ func (h *Hist) runClosed(c ClosedOp) error {
 	return guard(func() error {
 		switch c.Kind {
 		case "migrate1":
-			return klevdb.Migrate(h.dir, opts, klevdb.V1)
+			return klevdb.Migrate(h.path(), opts, klevdb.V1)
 		case "migrate2":
-			return klevdb.Migrate(h.dir, opts, klevdb.V2)
+			return klevdb.Migrate(h.path(), opts, klevdb.V2)
 		case "check":
-			return klevdb.Check(h.dir, opts)
+			return klevdb.Check(h.path(), opts)
 		case "recover":
-			return klevdb.Recover(h.dir, opts)
+			return klevdb.Recover(h.path(), opts)
 		case "stat":
-			_, err := klevdb.Stat(h.dir, opts)
+			_, err := klevdb.Stat(h.path(), opts)
 			return err
 		}
 		return nil
